@@ -1,7 +1,7 @@
 (* C11  Jobs faithfully store, resume and find traversals. *)
 From Coq Require Import List Arith Bool.
 Import ListNotations.
-From Grip Require Import Model.Json Model.Has Model.Traversal Model.Jobs Proofs.JobsProofs.
+From Grip Require Import Model.Json Model.Has Model.Traversal Model.Jobs Proofs.JobsProofs Proofs.RoundRobin.
 
 (* for EVERY graph, job traversal p1, extension p2: resuming from what p1 stored (travelers, result type, mark
    types) is running the concatenated traversal; in particular an ill-typed extension is rejected in both *)
@@ -30,6 +30,18 @@ Theorem C11_restart : forall l1 l2, jrun (l1 ++ ARestart :: l2) = jrun (l1 ++ l2
 Proof. exact restart_transparent. Qed.
 Print Assumptions C11_table.
 Print Assumptions C11_restart.
+
+(* the spool: for every number of workers >= 1 and every sequence of rows, handing the rows to the workers in turn
+   and merging their outputs turn by turn returns the rows in the order they were produced, none lost, none twice
+   (jobstorage/serializer.go MarshalStream and UnmarshalStream, on the way to the job file and back) *)
+Theorem C11_spool_order : forall (X : Type) (n : nat) (rows : list X), 0 < n ->
+  merge (List.length rows + 2) (deal n rows) = rows.
+Proof. intros X n rows Hn. apply merge_deal. exact Hn. Qed.
+Print Assumptions C11_spool_order.
+
+Example C11_spool_instance :
+  deal 3 [1; 2; 3; 4; 5; 6; 7] = [[1; 4; 7]; [2; 5]; [3; 6]] /\ merge 9 (deal 3 [1; 2; 3; 4; 5; 6; 7]) = [1; 2; 3; 4; 5; 6; 7].
+Proof. vm_compute. auto. Qed.
 
 Example C11_search_instance :
   job_match Nat.eqb [1; 2; 3] [1; 2] = true /\ job_match Nat.eqb [1; 2; 3] [1] = false /\
